@@ -630,6 +630,9 @@ class PlanJoinTablesQuery:
                 self.add_step_to_partition(step)
                 return step
 
+            # next step can't be partitioned: the partition ends here
+            self.close_partition()
+
         elif partition_size is not None:
             # create partition
 
